@@ -119,8 +119,9 @@ def verify_function(key: str, contracts: dict, *, tier="quick", only_clauses=Non
         rep.bounded = f"bounded-symbolic: every list (arguments, lists returned by callee contracts) has length <= {c['list_bound']}; contents fully symbolic"
     t0 = time.time()
     mod, qual = _split_key(key)
-    oblig_timeout = c.get("timeout_ms", 10000 if tier == "quick" else 60000)
-    feas_timeout = c.get("feas_timeout_ms", 1500)
+    scale = float(os.environ.get("PYVC_TIMEOUT_SCALE", "1") or 1)  # second-chance pass of check.py
+    oblig_timeout = int(c.get("timeout_ms", 10000 if tier == "quick" else 60000) * scale)
+    feas_timeout = int(c.get("feas_timeout_ms", 1500) * scale)
     worklist: list = [dict(start) if start else {}]
     try:
         node = SOURCES.find(mod, qual)
@@ -336,7 +337,7 @@ def verify_lemma(name: str, *, tier="quick", start=None, one_path=False) -> Func
     any_feasible = False
     while worklist:
         prefix = worklist.pop()
-        ctx = Ctx(prefix, oblig_timeout_ms=l.get("timeout_ms") or (10000 if tier == "quick" else 60000))
+        ctx = Ctx(prefix, oblig_timeout_ms=int((l.get("timeout_ms") or (10000 if tier == "quick" else 60000)) * float(os.environ.get("PYVC_TIMEOUT_SCALE", "1") or 1)))
         interp = Interp(ctx, S.REGISTRY, target_key=None)
         interp.current_contract = c
         if l.get("bounded"):
